@@ -29,13 +29,23 @@ func optRuns() []optRun {
 	}
 	return []optRun{
 		{"default", "base", d},
-		mk("index off", "index", func(p *geojson.ParseOptions) { p.IndexChildren, p.IndexGeometry, p.IndexGeometryKind = 0, 0, geometry.None }),
-		mk("index 1/1 rtree", "index", func(p *geojson.ParseOptions) { p.IndexChildren, p.IndexGeometry, p.IndexGeometryKind = 1, 1, geometry.RTree }),
+		mk("index off", "index", func(p *geojson.ParseOptions) {
+			p.IndexChildren, p.IndexGeometry, p.IndexGeometryKind = 0, 0, geometry.None
+		}),
+		mk("index 1/1 rtree", "index", func(p *geojson.ParseOptions) {
+			p.IndexChildren, p.IndexGeometry, p.IndexGeometryKind = 1, 1, geometry.RTree
+		}),
 		mk("index 1/1 quadtree", "index", func(p *geojson.ParseOptions) { p.IndexChildren, p.IndexGeometry = 1, 1 }),
-		mk("index 2/3 rtree", "index", func(p *geojson.ParseOptions) { p.IndexChildren, p.IndexGeometry, p.IndexGeometryKind = 2, 3, geometry.RTree }),
+		mk("index 2/3 rtree", "index", func(p *geojson.ParseOptions) {
+			p.IndexChildren, p.IndexGeometry, p.IndexGeometryKind = 2, 3, geometry.RTree
+		}),
 		mk("index 3/4 quadtree", "index", func(p *geojson.ParseOptions) { p.IndexChildren, p.IndexGeometry = 3, 4 }),
-		mk("index 4/5 rtree", "index", func(p *geojson.ParseOptions) { p.IndexChildren, p.IndexGeometry, p.IndexGeometryKind = 4, 5, geometry.RTree }),
-		mk("index 5/6 none-kind", "index", func(p *geojson.ParseOptions) { p.IndexChildren, p.IndexGeometry, p.IndexGeometryKind = 5, 6, geometry.None }),
+		mk("index 4/5 rtree", "index", func(p *geojson.ParseOptions) {
+			p.IndexChildren, p.IndexGeometry, p.IndexGeometryKind = 4, 5, geometry.RTree
+		}),
+		mk("index 5/6 none-kind", "index", func(p *geojson.ParseOptions) {
+			p.IndexChildren, p.IndexGeometry, p.IndexGeometryKind = 5, 6, geometry.None
+		}),
 		mk("simple points", "repr", func(p *geojson.ParseOptions) { p.AllowSimplePoints = true }),
 		mk("rects", "repr", func(p *geojson.ParseOptions) { p.AllowRects = true }),
 		mk("simple points + rects, index 1/1", "repr", func(p *geojson.ParseOptions) {
